@@ -81,6 +81,28 @@ def rule_r3(ck, prog, rule='C15.R3'):
         return False
     ok = bool(adds) and all(g.must_pass_edge(p, small_ok) for p in adds)
     ck.verdict(ok, rule, f, 'member<=4096', adds[0].n if adds else None, 'members added only for |key|+|value| <= 4096' if ok else 'the 4096-byte member limit does not guard the insertion')
+    # ... and the guard measures the member as the tokenizer delivered it (metadata included), not a narrowed copy
+    narrowed = None
+    for p in g.points:
+        for (q, lab) in p.succ:
+            if small_ok(p, q, lab):
+                for j in f.subtree(lab[0]):
+                    m = f.nodes[j]
+                    if m['k'] == 'ref' and m.get('sk') == 'local':
+                        # the tokenizer call re-delivers the variable (out-parameter): an assignment reaches the guard only if a
+                        # path from it to the guard avoids that call
+                        refills = [x for x in g.points if x.n is not None and x.n['k'] == 'call' and
+                                   any(strip_casts(f, a2).get('id') == m['id'] for a2 in x.n.get('args', []))]
+                        for (v, d) in rd.get(p.id, ()):
+                            dp = g.points[d]
+                            dn = dp.n
+                            if v == m['id'] and dn is not None and ((dn['k'] == 'call' and dn.get('op') == '=') or (dn['k'] == 'binop' and dn['op'] == '=')):
+                                if p.id in g.reachable_from([x for (x, _l) in dp.succ], avoid=refills):
+                                    narrowed = (m['name'], dn)
+    if ok:
+        ck.verdict(narrowed is None, rule, f, 'member-limit-measures-whole-member', narrowed[1] if narrowed else adds[0].n,
+                   'the 4096 limit is tested on key and value as delivered by the tokenizer' if narrowed is None else
+                   'the 4096-byte limit is tested after %s was re-assigned (metadata split off): a member that is over-long only through its ;metadata is accepted, stored and re-injected' % narrowed[0])
 
     def named_true(name):
         def pred(a, b, lab):
@@ -219,6 +241,18 @@ def rule_r4(ck, prog, rule='C15.R4'):
             any(n['k'] == 'call' and strip_targs(n.get('c', '')).endswith('string_view::substr') for n in fx.nodes)
     ok = bool(th) and uses_sep(th[0]) and uses_sep(fh)
     ck.verdict(ok, rule, fh, 'metadata-bypass-symmetric', None, 'both sides split at the metadata separator' if ok else 'the metadata part is not split off symmetrically by ToHeader and FromHeader')
+    if th:
+        lf = th[0]
+        encs = [n for n in lf.nodes if n['k'] == 'call' and strip_targs(n.get('c', '')).endswith('Baggage::UrlEncode')]
+        altered = None
+        for e in encs:
+            for j in lf.subtree(e['args'][0]):
+                m = lf.nodes[j]
+                if m['k'] == 'call' and strip_targs(m.get('c', '')).rsplit('::', 1)[-1] not in ('substr', 'data', 'size', 'length'):
+                    altered = (e, strip_targs(m.get('c', '')).rsplit('::', 2)[-2:])
+        ck.verdict(bool(encs) and altered is None, rule, lf, 'encode-stored-text-unaltered', altered[0] if altered else (encs[0] if encs else None),
+                   'UrlEncode is applied to the stored key / value (or its part before the metadata separator) unaltered' if encs and altered is None else
+                   'the stored text is passed through %s before it is encoded: what ToHeader writes differs from what was set (edge spaces lost), so Set -> inject -> extract does not round-trip' % ('::'.join(altered[1]) if altered else '?'))
 
 
 def rule_r5(ck, prog, rule='C15.R5'):
@@ -248,6 +282,10 @@ def rule_r5(ck, prog, rule='C15.R5'):
     ok = bool(sets) and all(g.must_pass_edge(p, nonempty_parsed) for p in sets)
     ck.verdict(ok, rule, f, 'install-only-nonempty-parsed', sets[0].n if sets else None, 'SetBaggage only behind a non-empty parsed baggage' if ok else
                'the baggage is installed without a non-emptiness test of the parsed baggage (e.g. the raw header is tested instead): a header with nothing valid replaces the baggage already in the context by an empty one')
+    bad = [p for p in sets if not all(sn['k'] == 'ref' and sn.get('id') == f.params[1]['id'] for (sf, sn, sc) in origins(g, rd, f, p.n['args'][0], p.ctx))]
+    ck.verdict(bool(sets) and not bad, rule, f, 'install-into-callers-context', (bad or sets or [None])[0].n if (bad or sets) else None,
+               'the baggage is set into the context Extract was given' if sets and not bad else
+               'the extracted baggage is set into a context other than the one Extract was given (e.g. the thread\'s current context): what earlier propagators of a composite extracted is discarded')
     other = [r for r in g.returns() if not any(f.nodes[i]['k'] == 'call' and strip_targs(f.nodes[i].get('c', '')).endswith('baggage::SetBaggage') for i in f.subtree(r.n['e']))]
     ok = bool(other) and all(strip_casts(f, r.n['e']).get('id') == f.params[1]['id'] for r in other)
     ck.verdict(ok, rule, f, 'otherwise-callers-context', other[0].n if other else None, 'otherwise the caller\'s context is returned' if ok else 'on nothing valid Extract does not return the caller\'s context itself')
@@ -323,9 +361,9 @@ def rule_r6(ck, prog, rule='C15.R6', cls='context::propagation::CompositePropaga
 def run(ck, prog):
     ck.doc('C15.R1', 'no member of Baggage modifies the object it is called on', 6)
     ck.doc('C15.R2', 'copy callbacks of Set/Delete exclude the given key', 2)
-    ck.doc('C15.R3', 'size limits 8192/180/4096 and the validity conjunction guard the insertion', 7)
-    ck.doc('C15.R4', 'encoder/decoder alphabets agree (byte sets); escape guard; metadata bypass', 5)
-    ck.doc('C15.R5', 'BaggagePropagator::Extract installs only a non-empty parsed baggage', 2)
+    ck.doc('C15.R3', 'size limits 8192/180/4096 (on the whole member) and the validity conjunction guard the insertion', 8)
+    ck.doc('C15.R4', 'encoder/decoder alphabets agree (byte sets); escape guard; metadata bypass; stored text encoded unaltered', 6)
+    ck.doc('C15.R5', 'BaggagePropagator::Extract installs only a non-empty parsed baggage, into the context it was given', 3)
     ck.doc('C15.R6', 'CompositePropagator: Inject calls all; Extract threads the context on every feasible path', 3)
     with ck.canary('C15.R6'):
         rule_r6(ck, prog, cls='canary::c15::BadComposite')
